@@ -8,6 +8,8 @@
  *   col  <mode> <verify> <file> <rg> <col> <ops>        column-reader history
  *   bat  <mode> <verify> <file> <batch_size> <proj>     batch reader, all batches
  *   meta <mode> <verify> <file>                         metadata dump
+ *   zc   <mode> <verify> <file>                         carquet_reader_can_zero_copy of every chunk (+ out-of-range probes)
+ *          batch_size "d" = carquet_batch_reader_create(reader, NULL); verify "d" = options NULL (modes f, b)
  *   foot <mode> <hex>                                   can these bytes be opened at all (footer location logic): OK | ERR
  *   hex  <file>                                         the bytes of the file (for footer experiments on files carquet wrote)
  *
@@ -299,9 +301,11 @@ static int ensure_file(const char* spec, char* why, size_t whylen) {
 /* reader options of the current case beyond verify_checksums (set by parse_opts) */
 static long long g_opt_buffer = -1;
 static int g_opt_threads = -1;
+static int g_opt_null = 0;             /* "d...": pass options = NULL (library defaults) where the API allows it */
 
 static int parse_opts(const char* tok) {
     g_opt_buffer = -1; g_opt_threads = -1;
+    g_opt_null = (tok[0] == 'd');
     const char* p = strchr(tok, ',');
     while (p) {
         p++;
@@ -309,7 +313,7 @@ static int parse_opts(const char* tok) {
         else if (*p == 't') g_opt_threads = atoi(p + 1);
         p = strchr(p, ',');
     }
-    return atoi(tok);
+    return g_opt_null ? 1 : atoi(tok);
 }
 
 static carquet_reader_t* open_reader(char mode, int verify, carquet_error_t* err) {
@@ -318,9 +322,9 @@ static carquet_reader_t* open_reader(char mode, int verify, carquet_error_t* err
     ro.verify_checksums = verify ? true : false;
     if (g_opt_buffer >= 0) ro.buffer_size = (size_t)g_opt_buffer;
     if (g_opt_threads >= 0) ro.num_threads = g_opt_threads;
-    if (mode == 'b') return carquet_reader_open_buffer(g_buf, g_buf_len, &ro, err);
+    if (mode == 'b') return carquet_reader_open_buffer(g_buf, g_buf_len, g_opt_null ? NULL : &ro, err);
     ro.use_mmap = (mode == 'm');
-    return carquet_reader_open(g_tmp, &ro, err);
+    return carquet_reader_open(g_tmp, (g_opt_null && mode == 'f') ? NULL : &ro, err);
 }
 
 typedef struct { int type; int tlen; int max_def; int max_rep; size_t vsize; } colinfo_t;
@@ -363,7 +367,14 @@ static void run_col(char mode, int verify, int rg, int col, char* ops) {
     if (!rd) { printf("ERR open %d\n", (int)err.code); return; }
     if (mode == 'm' && !carquet_reader_is_mmap(rd)) { printf("ERR mmap-not-active\n"); carquet_reader_close(rd); return; }
     colinfo_t ci;
-    if (col_info(rd, col, &ci) != 0) { printf("ERR no-such-column\n"); carquet_reader_close(rd); return; }
+    if (col_info(rd, col, &ci) != 0) {
+        /* no such leaf: the library must refuse it */
+        carquet_column_reader_t* cr0 = carquet_reader_get_column(rd, rg, col, &err);
+        if (cr0) { printf("ERR no-such-column-accepted\n"); carquet_column_reader_free(cr0); }
+        else printf("ERR get_column %d\n", (int)err.code);
+        carquet_reader_close(rd);
+        return;
+    }
     carquet_column_reader_t* cr = carquet_reader_get_column(rd, rg, col, &err);
     if (!cr) { printf("ERR get_column %d\n", (int)err.code); carquet_reader_close(rd); return; }
     printf("OK");
@@ -438,7 +449,9 @@ static void run_col(char mode, int verify, int rg, int col, char* ops) {
 
 typedef struct { const uint8_t* live; uint8_t* copy; size_t n; } keep_t;
 
-static void run_bat(char mode, int verify, int batch_size, char* proj) {
+static void run_bat(char mode, int verify, const char* bs_tok, char* proj) {
+    int batch_size = atoi(bs_tok);
+    int null_cfg = (bs_tok[0] == 'd');          /* carquet_batch_reader_create(reader, NULL): default batch size, all columns */
     carquet_error_t err = CARQUET_ERROR_INIT;
     carquet_reader_t* rd = open_reader(mode, verify, &err);
     if (!rd) { printf("ERR open %d\n", (int)err.code); return; }
@@ -448,6 +461,7 @@ static void run_bat(char mode, int verify, int batch_size, char* proj) {
     cfg.batch_size = batch_size;
     cfg.use_mmap = (mode == 'm');
     { const char* th = getenv("H_THREADS"); cfg.num_threads = th ? atoi(th) : 2; }   /* sequential semantics are C02's subject; C07 owns scheduling */
+    if (g_opt_threads >= 0) cfg.num_threads = g_opt_threads;
     int32_t idx[MAXCOLS * 2]; const char* names[MAXCOLS * 2]; int np = 0;
     int pcols[MAXCOLS * 2]; int npc = 0;           /* file column index of each projected column */
     int ncols = carquet_reader_num_columns(rd);
@@ -471,7 +485,9 @@ static void run_bat(char mode, int verify, int batch_size, char* proj) {
         cfg.column_names = names; cfg.num_column_names = np;
     } else { printf("ERR bad-proj\n"); carquet_reader_close(rd); return; }
     colinfo_t ci[MAXCOLS * 2];
+    int blind = 0;       /* a projection by index names a column the file does not have: accepted at create, the first next must fail */
     for (int i = 0; i < npc; i++) {
+        if (proj[0] == 'i' && (pcols[i] < 0 || pcols[i] >= ncols)) { blind = 1; continue; }
         if (pcols[i] < 0 || pcols[i] >= ncols || col_info(rd, pcols[i], &ci[i]) != 0) {
             /* let the library decide what to do with a projection it cannot resolve */
             carquet_batch_reader_t* br0 = carquet_batch_reader_create(rd, &cfg, &err);
@@ -481,7 +497,7 @@ static void run_bat(char mode, int verify, int batch_size, char* proj) {
             return;
         }
     }
-    carquet_batch_reader_t* br = carquet_batch_reader_create(rd, &cfg, &err);
+    carquet_batch_reader_t* br = carquet_batch_reader_create(rd, null_cfg ? NULL : &cfg, &err);
     if (!br) { printf("ERR create %d\n", (int)err.code); carquet_reader_close(rd); return; }
     printf("OK");
     /* every batch of a correct reader has at least one row, except one per empty row group */
@@ -497,7 +513,13 @@ static void run_bat(char mode, int verify, int batch_size, char* proj) {
         st = carquet_batch_reader_next(br, &b);
         if (st != CARQUET_OK || !b) break;
         if (nkept >= MAXB) { printf(" !too-many-batches"); carquet_row_batch_free(b); break; }
+        if (blind) { printf(" !batch-for-a-column-the-file-does-not-have"); carquet_row_batch_free(b); break; }
         kept[nkept++] = b;
+        {   /* a column index outside the batch must be refused */
+            const void* d0 = NULL; const uint8_t* b0 = NULL; int64_t n0 = 0;
+            if (carquet_row_batch_column(b, carquet_row_batch_num_columns(b), &d0, &b0, &n0) == CARQUET_OK ||
+                carquet_row_batch_column(b, -1, &d0, &b0, &n0) == CARQUET_OK) printf(" !column-index-outside-batch-accepted");
+        }
         int64_t nr = carquet_row_batch_num_rows(b);
         int32_t nc = carquet_row_batch_num_columns(b);
         printf(" B%lld[", (long long)nr);
@@ -538,6 +560,21 @@ static void run_bat(char mode, int verify, int batch_size, char* proj) {
     for (int i = 0; i < nkept; i++) carquet_row_batch_free(kept[i]);
     free(keeps); free(kept);
     carquet_batch_reader_free(br);
+    carquet_reader_close(rd);
+}
+
+/* carquet_reader_can_zero_copy for every chunk, plus probes outside the file's row groups / columns */
+static void run_zc(char mode, int verify) {
+    carquet_error_t err = CARQUET_ERROR_INIT;
+    carquet_reader_t* rd = open_reader(mode, verify, &err);
+    if (!rd) { printf("ERR open %d\n", (int)err.code); return; }
+    int ncols = carquet_reader_num_columns(rd), nrg = carquet_reader_num_row_groups(rd);
+    printf("OK mmap=%d", carquet_reader_is_mmap(rd) ? 1 : 0);
+    for (int g = 0; g < nrg; g++)
+        for (int c = 0; c < ncols; c++) printf(" g%dc%d=%d", g, c, carquet_reader_can_zero_copy(rd, g, c) ? 1 : 0);
+    printf(" out=%d%d%d%d", carquet_reader_can_zero_copy(rd, -1, 0) ? 1 : 0, carquet_reader_can_zero_copy(rd, nrg, 0) ? 1 : 0,
+           carquet_reader_can_zero_copy(rd, 0, -1) ? 1 : 0, carquet_reader_can_zero_copy(rd, 0, ncols) ? 1 : 0);
+    putchar('\n');
     carquet_reader_close(rd);
 }
 
@@ -596,7 +633,10 @@ int main(void) {
             else run_col(h_tok[1][0], parse_opts(h_tok[2]), atoi(h_tok[4]), atoi(h_tok[5]), h_tok[6]);
         } else if (!strcmp(h_tok[0], "bat") && h_ntok == 6) {
             if (ensure_file(h_tok[3], why, sizeof why) != 0) printf("ERR file %s\n", why);
-            else run_bat(h_tok[1][0], parse_opts(h_tok[2]), atoi(h_tok[4]), h_tok[5]);
+            else run_bat(h_tok[1][0], parse_opts(h_tok[2]), h_tok[4], h_tok[5]);
+        } else if (!strcmp(h_tok[0], "zc") && h_ntok == 4) {
+            if (ensure_file(h_tok[3], why, sizeof why) != 0) printf("ERR file %s\n", why);
+            else run_zc(h_tok[1][0], parse_opts(h_tok[2]));
         } else if (!strcmp(h_tok[0], "meta") && h_ntok == 4) {
             if (ensure_file(h_tok[3], why, sizeof why) != 0) printf("ERR file %s\n", why);
             else run_meta(h_tok[1][0], parse_opts(h_tok[2]));
@@ -610,7 +650,7 @@ int main(void) {
             if (ensure_file(spec, why, sizeof why) != 0) printf("ERR file %s\n", why);
             else {
                 carquet_error_t err = CARQUET_ERROR_INIT;
-                g_opt_buffer = -1; g_opt_threads = -1;
+                g_opt_buffer = -1; g_opt_threads = -1; g_opt_null = 0;
                 carquet_reader_t* rd = open_reader(h_tok[1][0], 1, &err);
                 if (rd) { puts("OK"); carquet_reader_close(rd); } else puts("ERR");
             }
